@@ -270,13 +270,33 @@ def shard_fn(shard, nshards, seed, tier, exe, nconf, nrob):
         n += 1
         mode = rng.randrange(2)
         dt, pt = encode(doc), (raw if raw is not None else encode(patch))
-        cmds = ["P 0 64 1 x%s 0" % dt.hex(), "P 0 64 1 x%s 1" % pt.hex(), "D 1"]
+        hist = []
+        if kind != "listed" and rng.random() < 0.15:
+            # the target document reaches its value through a grow-and-shrink history of one or two containers (table sizes, tombstones, array capacity
+            # differ from a freshly parsed document; the value does not)
+            conts = [q for q in all_paths(doc) if isinstance(node_at(doc, q), (dict, list))]
+            for q in rng.sample(conts, min(len(conts), rng.choice([1, 2]))):
+                c = node_at(doc, q)
+                k = rng.choice([1, 5, 12, 13, 24, 50])
+                hist.append("NAV 0 5 " + " ".join(("i%d" % x) if isinstance(x, int) else "k" + x.hex() for x in q))
+                if isinstance(c, dict):
+                    keys = [(b"\x03fill%d" % j).hex() for j in range(k)]
+                    for j, kk in enumerate(keys):
+                        hist += ["NEW 9 - int %d" % j, "OADD 5 x%s 9 0" % kk]
+                    hist += ["ODEL 5 x%s" % kk for kk in keys]
+                else:
+                    for j in range(k):
+                        hist += ["NEW 9 - int %d" % j, "AADD 5 9"]
+                    hist.append("ADEL 5 %d %d" % (len(c), k))
+            if hist:
+                sh.count("documents.with_grow_shrink_history")
+        cmds = ["P 0 64 1 x%s 0" % dt.hex()] + hist + ["P 0 64 1 x%s 1" % pt.hex(), "D 1"]
         if mode == 0:
             cmds += ["PATCH 0 1 0", "D 0", "D 1", "PUT 0", "PUT 1"]
         else:
             cmds += ["PATCH 0 1 1 2", "D 2", "D 1", "D 0", "PUT 0", "PUT 1", "PUT 2"]
         cases.append((cid, cmds))
-        meta[cid] = (doc, patch, mode, kind)
+        meta[cid] = (doc, patch, mode, kind, len(hist))
 
     if shard == 0:
         for k in core.load_known():
@@ -314,7 +334,7 @@ def shard_fn(shard, nshards, seed, tier, exe, nconf, nrob):
     cmdmap = dict(cases)
     for cr in crashes:
         kind, frame = cr.summary()
-        doc, patch, mode, k = meta[cr.cid]
+        doc, patch, mode, k, _nh = meta[cr.cid]
         bad = "?"
         if isinstance(patch, list):
             for op in patch:
@@ -326,7 +346,8 @@ def shard_fn(shard, nshards, seed, tier, exe, nconf, nrob):
         sh.violation("C13/%s/%s/%s" % (kind, frame, bad), "crash applying patch %s to %s (%s)" % (encode(patch)[:200], encode(doc)[:100], kind),
                      {"driver": "jcdrv", "variant": "asan", "script": cmdmap[cr.cid], "stderr": cr.stderr[-2500:], "patch": encode(patch).decode("latin1"), "doc": encode(doc).decode("latin1")})
     for cid, lines in results.items():
-        doc, patch, mode, kind = meta[cid]
+        doc, patch, mode, kind, nh = meta[cid]
+        lines = lines[:1] + lines[1 + nh:]
         cmds = cmdmap[cid]
         rep = {"driver": "jcdrv", "variant": "asan", "script": cmds, "doc": encode(doc).decode("latin1"), "patch": encode(patch).decode("latin1"), "mode": "in place" if mode == 0 else "copy_from"}
         if lines[0].split()[1] != "0" or lines[1].split()[1] != "0":
